@@ -21,7 +21,12 @@ def rsa_key(name: str) -> RSA.RsaKey:
     return _keys[name]
 
 
-def _pad(b: bytes, n: int) -> str:
+def _pad(b: bytes, n: int, leftover: int = 0) -> str:
+    if leftover and len(b) + 2 < n:
+        # a fixed-size string buffer that held a longer value before: NUL terminator, then what was left of the old content
+        junk = builder.prng_bytes(leftover + len(b), n - len(b) - 1).replace(b"\x00", b"/")
+        keep = 1 + (leftover + len(b)) % (n - len(b) - 1)
+        return hx((b + b"\x00" + junk[:keep]).ljust(n, b"\x00"))
     return hx(b.ljust(n, b"\x00"))
 
 
@@ -32,6 +37,7 @@ def settings_for(cfg: dict) -> List[list]:
     get_prog = rc.compile_transform(cfg["get"])
     post_prog = rc.compile_transform(cfg["post"])
     rec_prog = rc.compile_recover(cfg["server"])
+    lo = cfg.get("leftover", 0)
     s = [
         [1, "short", cfg["proto"]],
         [2, "short", cfg["port"]],
@@ -39,17 +45,17 @@ def settings_for(cfg: dict) -> List[list]:
         [4, "int", cfg.get("maxget", 1048576)],
         [5, "short", cfg["jitter"]],
         [7, "ptr", _pad(pub, 256 if len(pub) <= 256 else 512)],
-        [8, "ptr", _pad(domains, max(256, len(domains) + 1))],
-        [9, "ptr", _pad(cfg["ua"].encode(), 128 if len(cfg["ua"]) < 128 else len(cfg["ua"]) + 9)],
-        [10, "ptr", _pad(cfg["submit"].encode(), 64)],
+        [8, "ptr", _pad(domains, max(256, len(domains) + 1), lo)],
+        [9, "ptr", _pad(cfg["ua"].encode(), 128 if len(cfg["ua"]) < 128 else len(cfg["ua"]) + 9, lo)],
+        [10, "ptr", _pad(cfg["submit"].encode(), 64, lo)],
         [11, "ptr", _pad(rec_prog, max(256, len(rec_prog)))],
         [12, "ptr", _pad(get_prog, max(512, len(get_prog)))],
         [13, "ptr", _pad(post_prog, max(512, len(post_prog)))],
-        [26, "ptr", _pad(cfg["verb_get"].encode(), 16)],
-        [27, "ptr", _pad(cfg["verb_post"].encode(), 16)],
+        [26, "ptr", _pad(cfg["verb_get"].encode(), 16, lo)],
+        [27, "ptr", _pad(cfg["verb_post"].encode(), 16, lo)],
         [31, "short", 0],
         [37, "int", cfg.get("watermark", 305419896)],
-        [54, "ptr", _pad(cfg.get("host_header", "").encode(), 128)],
+        [54, "ptr", _pad(cfg.get("host_header", "").encode(), 128, lo)],
     ]
     # further settings the session does not depend on: unknown indices (legal; they keep a synthetic name) and a few known ones
     s += [list(x) for x in cfg.get("extra", [])]
@@ -229,4 +235,6 @@ def gen_config(rng, allow_uri_append=False, allow_static_param=True, rsa=None):
                 used.add(idx)
                 extra.append([idx, t, val])
         cfg["extra"] = extra
+    if rng.random() < 0.25:
+        cfg["leftover"] = rng.randint(1, 1 << 20)      # string buffers carry old bytes behind their NUL terminator
     return cfg
